@@ -1002,4 +1002,70 @@ example : ∃ v, validateArgs {} ⟨.none, .list [.s "x".toList, .s "1bad".toLis
 
 end Witness
 
+/-! ## Cyclic chains (repair C17-H4): each exception is visited once -/
+
+/-- Whatever the links are (cycles included), the walk with the visited set never visits an exception twice, never
+    one it was told is already seen, and only exceptions of the graph. -/
+theorem visitG_spec (cfg : Cfg) (g : List ENode) :
+    ∀ (fuel : Nat) (seen : List Nat) (start : Option Nat),
+      (visitG cfg g fuel seen start).Nodup ∧
+      (∀ x ∈ visitG cfg g fuel seen start, x ∉ seen ∧ x < g.length) := by
+  intro fuel
+  induction fuel with
+  | zero => intro seen start; simp [visitG]
+  | succ k ih =>
+    intro seen start
+    cases start with
+    | none => simp [visitG]
+    | some i =>
+      unfold visitG
+      by_cases hi : i ∈ seen
+      · simp [hi]
+      · simp only [hi, if_false]
+        cases hg : g[i]? with
+        | none => simp
+        | some n =>
+          have hlt : i < g.length := by
+            rcases List.getElem?_eq_some_iff.mp hg with ⟨h, _⟩
+            exact h
+          obtain ⟨hnd, hmem⟩ := ih (i :: seen) (nextLink cfg n)
+          refine ⟨?_, ?_⟩
+          · refine List.nodup_cons.mpr ⟨?_, hnd⟩
+            intro hin
+            exact (hmem i hin).1 (List.mem_cons_self)
+          · intro x hx
+            rcases List.mem_cons.mp hx with rfl | hx
+            · exact ⟨hi, hlt⟩
+            · obtain ⟨h1, h2⟩ := hmem x hx
+              exact ⟨fun h => h1 (List.mem_cons_of_mem _ h), h2⟩
+
+/-- C17 on cyclic chains: every exception of the graph contributes its frames at most once. -/
+theorem C17_cycle_visits_once (cfg : Cfg) (g : List ENode) (start : Option Nat) :
+    (visitG cfg g (g.length + 1) [] start).Nodup ∧
+    ∀ x ∈ visitG cfg g (g.length + 1) [] start, x < g.length :=
+  ⟨(visitG_spec cfg g _ _ _).1, fun x hx => ((visitG_spec cfg g _ _ _).2 x hx).2⟩
+
+/-- The walk starts with the frames of the exception itself (bottom-first): the failing frame keeps key 1. -/
+theorem C17_cycle_first (cfg : Cfg) (g : List ENode) (i : Nat) (n : ENode) (h : g[i]? = some n) :
+    allFramesG cfg g (some i) =
+      n.tb.reverse ++ (visitG cfg g g.length [i] (nextLink cfg n)).flatMap (nodeFrames g) := by
+  simp [allFramesG, visitG, h, nodeFrames]
+
+section CycleWitness
+private def fA : Frame := { fid := 0, file := "a.py".toList, line := 3, name := "f".toList, qual := "f".toList, locals := [] }
+private def fB : Frame := { fid := 1, file := "a.py".toList, line := 9, name := "m".toList, qual := "m".toList, locals := [] }
+private def fC : Frame := { fid := 2, file := "b.py".toList, line := 5, name := "g".toList, qual := "g".toList, locals := [] }
+
+/-- `raise e from e`: the frames of `e` once (the interpreter displays the same) -/
+example : allFramesG {} [⟨[fB, fA], some 0, none, true⟩] (some 0) = [fA, fB] := by decide
+/-- `new.__cause__ = err`, `err.__cause__ = new`, `err.__context__` = a third exception: the walk stops when it comes
+    back to `new`; it does NOT fall through to `err.__context__` -/
+example : allFramesG { d2fixed := true }
+    [⟨[fB], some 1, some 1, true⟩, ⟨[fB, fA], some 0, some 2, true⟩, ⟨[fC], none, none, false⟩] (some 0)
+    = [fB, fA, fB] := by decide
+/-- without a cycle the graph walk is the tree walk -/
+example : allFramesG {} [⟨[fB], none, some 1, false⟩, ⟨[fB, fA], none, none, false⟩] (some 0)
+    = allFrames {} (.mk [fB] none (some (.mk [fB, fA] none none false)) false) := by decide
+end CycleWitness
+
 end Pfb.C17
